@@ -21,65 +21,93 @@ def run(ctx):
     ctx.rule('IO-RETURN', 'psf_fread / psf_fwrite: EINTR is the only retried error; every other error is logged through psf_log_syserr and leaves the loop; a zero transfer leaves the loop; total += count and '
              'items -= count with the same count; the request handed to read/write is <= the remaining count; the function returns total / bytes', floor=12)
     for name, sysc in (('psf_fread', 'read'), ('psf_fwrite', 'write')):
-        f = prog.fn(name, 'file_io.c')
+        pub = prog.fn(name, 'file_io.c')
+        # the loop may sit in the primitive itself or in a static helper of file_io.c it calls (possibly shared by both directions): roles are read off the loop,
+        # not off variable names
+        f, hcall = pub, None
+        if not list(pub.calls(sysc)):
+            for hc in pub.calls():
+                for g in prog.fns.get(hc.get('callee') or '', []):
+                    if g.static and g.file == pub.file and list(g.calls(sysc)):
+                        f, hcall = g, hc
         bd = Bounds(prog, f, eff)
-        loops = [n for n in f.walk() if n['k'] == 'WhileStmt']
-        ctx.require(len(loops) == 1, '%s has %d loops' % (name, len(loops)))
-        L = loops[0]
-        calls = list(f.calls(sysc, root=L))
-        ctx.require(len(calls) == 1, '%s: %d %s calls in loop' % (name, len(calls), sysc))
+        calls = [c_ for c_ in f.calls(sysc) if any(a_['k'] in ('WhileStmt', 'ForStmt', 'DoStmt') for a_ in f.ancestors(c_))]
+        ctx.require(len(calls) == 1, '%s: %d %s calls inside a loop (in %s)' % (name, len(calls), sysc, f.name))
         c = calls[0]
+        L = [a_ for a_ in f.ancestors(c) if a_['k'] in ('WhileStmt', 'ForStmt', 'DoStmt')][0]
+        # roles
+        par = f.N[f.parent[c['id']]]
+        while par['k'] in ('ImplicitCastExpr', 'ParenExpr', 'CStyleCastExpr'):
+            par = f.N[f.parent[par['id']]]
+        ctx.require(par['k'] == 'BinaryOperator' and par.get('op') == '=', '%s: the result of %s is not assigned' % (name, sysc))
+        cnt = f.s(f.unwrap(f.N[par['kids'][0]]))
+        lc = f.unwrap(f.N[L['cond']]) if 'cond' in L else {}
+        rem = f.s(f.unwrap(f.N[lc['kids'][0]])) if lc.get('k') == 'BinaryOperator' and lc.get('op') in ('>', '!=') else None
+        ctx.require(rem, '%s: the transfer loop is not controlled by a remaining count' % name)
+        upd = {(lv, n['op'], f.s(f.unwrap(rhs))) for (lv, n, rhs) in assigned_lvalues(f, L['body']) if rhs is not None and n['k'] == 'CompoundAssignOperator'}
+        tots = [lv for (lv, op, r) in upd if op == '+=' and r == cnt]
+        tot = tots[0] if tots else None
         # request <= remaining
         req = f.unwrap(f.args(c)[2])
         b = bd.ev(req)
-        ok = ('<=', 'items') in b.ubs or ('<', 'items') in b.ubs
-        ctx.ob('IO-RETURN', name + ':request', ok, f.loc(c), 'request %s is %s the remaining count `items` (%r)' % (f.s(req), 'bounded by' if ok else 'NOT bounded by', b.ubs), None)
-        # result handling
-        ifs = [n for n in f.walk(L['body']) if n['k'] == 'IfStmt']
-        conds = {f.s(n['cond']): n for n in ifs}
+        ok = ('<=', rem) in b.ubs or ('<', rem) in b.ubs
+        ctx.ob('IO-RETURN', name + ':request', ok, f.loc(c), 'request %s is %s the remaining count `%s` (%r)' % (f.s(req), 'bounded by' if ok else 'NOT bounded by', rem, b.ubs), None)
         # error handling, read off the CFG (the shape of the ifs does not matter):
         #   every `continue` of the loop runs only when count == -1 and errno == EINTR; psf_log_syserr runs under count == -1 and from it the system call is not reached again
         from engine.util import branch_facts as _bf15
+        m1 = '(%s==-1)' % cnt
         conts = [x for x in f.walk(L['body']) if x['k'] == 'ContinueStmt']
         def _is_eintr(cs):
             return 'errno' in cs or cs.endswith('==4)') or '__errno_location' in cs
         okc = bool(conts)
         for ct in conts:
             facts = _bf15(f, ct)
-            if not (any(pol and cs == '(count==-1)' for cs, pol in facts) and any(pol and _is_eintr(cs) for cs, pol in facts)):
+            if not (any(pol and cs == m1 for cs, pol in facts) and any(pol and _is_eintr(cs) for cs, pol in facts)):
                 okc = False
         logs_ = [x for x in f.calls('psf_log_syserr', root=L['body'])]
         okl = bool(logs_)
+        # both directions may share the loop: the other system call is a way round again as well
+        again = {f.cfg.point(x)[0] for x in f.calls(('read', 'write'), root=L['body']) if f.cfg.point(x) is not None}
         for lg in logs_:
             facts = _bf15(f, lg)
-            if not any(pol and cs == '(count==-1)' for cs, pol in facts):
+            if not any(pol and cs == m1 for cs, pol in facts):
                 okl = False
-            pl, pc_ = f.cfg.point(lg), f.cfg.point(c)
-            if pl is None or pc_ is None or f.cfg.path_avoiding(pl, {pc_[0]}, set()) is not None:
+            pl = f.cfg.point(lg)
+            if pl is None or not again or f.cfg.path_avoiding(pl, again, set()) is not None:
                 okl = False            # after logging the error the loop goes round again
         okerr = okc and okl
-        err = conds.get('(count == -1)')
-        ctx.ob('IO-RETURN', name + ':error', okerr, f.loc(err) if err else f.loc(L), 'on -1: retry only for EINTR, otherwise psf_log_syserr then break: %s' % ('yes' if okerr else 'NO'), None)
-        zero = conds.get('(count == 0)')
-        okz = zero is not None and any(x['k'] == 'BreakStmt' for x in f.walk(zero['then']))
-        ctx.ob('IO-RETURN', name + ':zero', okz, f.loc(zero) if zero else f.loc(L), 'zero transfer leaves the loop: %s' % okz, None)
-        upd = {(lv, n['op'], f.s(rhs)) for (lv, n, rhs) in assigned_lvalues(f, L['body']) if rhs is not None and n['k'] == 'CompoundAssignOperator'}
-        oku = ('total', '+=', 'count') in upd and ('items', '-=', 'count') in upd
-        ctx.ob('IO-RETURN', name + ':accounting', oku, f.loc(L), 'total += count and items -= count: %s' % sorted(upd), None)
-        rets = [f.s(f.unwrap(f.N[r['kids'][0]])) for r in f.cfg.returns()]
-        okr = '(total / bytes)' in rets and all(r in ('(total / bytes)', '0') or 'psf->vio.' in r for r in rets)
-        ctx.ob('IO-RETURN', name + ':return', okr, f.loc(f.body), 'returns %s' % rets, None)
+        ctx.ob('IO-RETURN', name + ':error', okerr, f.loc(L), 'on -1: retry only for EINTR, otherwise psf_log_syserr and out of the loop: %s' % ('yes' if okerr else 'NO'), None)
+        zs = [n for n in f.walk(L['body']) if n['k'] == 'IfStmt' and f.s(n['cond']).replace(' ', '') in ('(%s==0)' % cnt, '(%s<=0)' % cnt)]
+        okz = bool(zs) and any(x['k'] == 'BreakStmt' for x in f.walk(zs[0]['then']))
+        ctx.ob('IO-RETURN', name + ':zero', okz, f.loc(zs[0]) if zs else f.loc(L), 'zero transfer leaves the loop: %s' % okz, None)
+        oku = tot is not None and (rem, '-=', cnt) in upd
+        ctx.ob('IO-RETURN', name + ':accounting', oku, f.loc(L), 'the running total grows and the remaining count `%s` shrinks by the same `%s`: %s' % (rem, cnt, sorted(upd)), None)
+        bytes_ = pub.params[1]['n']
+        rets = [pub.s(pub.unwrap(pub.N[r['kids'][0]])) for r in pub.cfg.returns()]
+        if hcall is None:
+            good = '(%s / %s)' % (tot, bytes_)
+            okr = good in rets and all(r in (good, '0') or 'psf->vio.' in r for r in rets)
+        else:
+            hrets = [f.s(f.unwrap(f.N[r['kids'][0]])) for r in f.cfg.returns()]
+            good = '(%s / %s)' % (pub.s(hcall), bytes_)
+            okr = good in rets and all(r in (good, '0') or 'psf->vio.' in r for r in rets) and bool(hrets) and all(r == tot for r in hrets)
+            rets = rets + ['%s: %s' % (f.name, hrets)]
+        ctx.ob('IO-RETURN', name + ':return', okr, pub.loc(pub.body), 'returns %s' % rets, None)
         ptr = f.s(f.unwrap(f.args(c)[1]))
         # a local that is nothing but the (cast) parameter is the parameter
         from engine.util import local_defs as _ld15
         for nm_, ds_ in _ld15(f).items():
             if len(ds_) == 1 and ds_[0] is not None and f.unwrap(ds_[0] if isinstance(ds_[0], dict) else f.N[ds_[0]]).get('k') == 'DeclRefExpr':
                 tgt_ = f.unwrap(ds_[0] if isinstance(ds_[0], dict) else f.N[ds_[0]])['n']
-                if tgt_ in [p_['n'] for p_ in f.params] and not any(lv == nm_ for lv, a_, r_ in assigned_lvalues(f) if (a_.get('l'), a_.get('c')) != ((ds_[0] if isinstance(ds_[0], dict) else f.N[ds_[0]]).get('l'), None)) or False:
-                    pass
                 if tgt_ in [p_['n'] for p_ in f.params] and sum(1 for lv, a_, r_ in assigned_lvalues(f) if lv == nm_) <= 1:
                     ptr = ptr.replace('(%s + ' % nm_, '(%s + ' % tgt_)
-        ctx.ob('IO-RETURN', name + ':offset', ptr == '(%s + total)' % f.params[0]['n'], f.loc(c), 'system call buffer is %s (required: the caller pointer + total)' % ptr, None)
+        if hcall is None:
+            oko = ptr == '(%s + %s)' % (pub.params[0]['n'], tot)
+        else:
+            # the helper's buffer parameter, and what the primitive passes for it
+            pn = [i_ for i_, p_ in enumerate(f.params) if ptr == '(%s + %s)' % (p_['n'], tot)]
+            oko = bool(pn) and pn[0] < len(pub.args(hcall)) and pub.s(pub.unwrap(pub.args(hcall)[pn[0]])) == pub.params[0]['n']
+        ctx.ob('IO-RETURN', name + ':offset', oko, f.loc(c), 'system call buffer is %s (required: the caller pointer + the running total)' % ptr, None)
     f = prog.fn('psf_log_syserr', 'file_io.c')
     conds = [f.s(n['cond']) for n in f.walk() if n['k'] == 'IfStmt']
     ok = any('psf->error == 0' in c_ for c_ in conds)
